@@ -192,6 +192,7 @@ theorem Agree.bind {σ α β α' β' : Type} {R : α → β → Prop} {R' : α' 
         | oob s' => (simp [Res.bindE, Res.bind, Agree] at h ⊢; exact h)
         | stop s' b' => exact absurd h (by simp [Agree])
       | assertion => cases rm <;> exact absurd h (by simp [Agree])
+      | mismatch => cases rm <;> exact absurd h (by simp [Agree])
       | invalidData m => cases rm <;> exact absurd h (by simp [Agree])
   | oob s => cases rm <;> exact absurd h (by simp [Agree])
   | stop s b =>
@@ -216,6 +217,7 @@ theorem Agree.mono {σ α β : Type} {R R' : α → β → Prop} {rt : Res σ (E
       | fuel => simp [Agree]
       | runtime => cases rm <;> simpa [Agree] using h
       | assertion => cases rm <;> exact absurd h (by simp [Agree])
+      | mismatch => cases rm <;> exact absurd h (by simp [Agree])
       | invalidData m => cases rm <;> exact absurd h (by simp [Agree])
   | oob s => cases rm <;> exact absurd h (by simp [Agree])
   | stop s b => cases rm <;> simpa [Agree] using h
